@@ -6,7 +6,7 @@
    computation on the stream state (bytes left, number of stream.read calls, number of
    deserialize_value calls). *)
 From Model Require Import Base Utf8 Ser SerCost SerHs.
-From Proofs Require Import SerDecP SerCostP C14P.
+From Proofs Require Import SerDecP SerCostP SerSizeP C14P.
 Open Scope Z_scope.
 
 (* 1. totality: for every byte string, registry, key-parser behaviour and number of frames the
@@ -82,6 +82,27 @@ Theorem C14_bytes_returned : forall fc pk reg fuel bs,
   end.
 Proof. exact bytes_returned_proof. Qed.
 Print Assumptions C14_bytes_returned.
+
+(* 5b. allocation: the size of a decoded value (nodes + string/bytes payload) is bounded by the work
+      done, hence by the input: with D a bound on the size of the class defaults of the registry,
+      vsize v <= (1 + D) * (value decodes) + (bytes consumed) and so 2 * vsize v <= (3 + D) * |bs|.
+      (Intermediate structures are the partially built lists/dicts of the same values; peak
+      memory of the CPython process is measured by the harness, not proved.) *)
+Theorem C14_decode_size : forall fc pk reg D,
+  reg_defsize_le reg D -> 0 <= D -> forall fuel bs,
+  match dec_value fc pk reg fuel (st0 bs) with
+  | (SOk v, s) => vsize v <= (1 + D) * nval s + (len bs - len (rem s))
+  | (SErr _, _) => True
+  end.
+Proof. exact decode_size_proof. Qed.
+Print Assumptions C14_decode_size.
+
+Theorem C14_decode_alloc : forall fc pk reg D fuel bs v rest,
+  reg_defsize_le reg D -> 0 <= D ->
+  decode fc pk reg fuel bs = SOk (v, rest) ->
+  2 * vsize v <= (3 + D) * (len bs - len rest) /\ len bs - len rest <= len bs.
+Proof. exact decode_alloc_proof. Qed.
+Print Assumptions C14_decode_alloc.
 
 (* 6. length-prefixed types (str, bytes: cap 2^20; seq, map, set: cap 2^14), for ANY decoder `sub`
       of the length (in particular the recursive one):
@@ -219,3 +240,10 @@ Example C14_ex_challenge :
   recv_challenge fc0 pk0 reg1 tok1 50 77 (B [0;132; 0;3;2; 0;3;77; 0;3;77]) = HsRaise (SE EIndex) /\
   recv_challenge fc0 pk0 reg1 tok1 50 77 (B [0;15]) = HsRaise (SE EAttr).
 Proof. vm_compute. repeat split. Qed.
+
+(* size: reg0's defaults have size 2; 16 input bytes give a value of size 6 <= (3 + 2) * 15 / 2 *)
+Example C14_ex_size : reg_defsize_le reg0 2 /\ vsize (VList [VNone; VObj 131 [VInt 5; VInt 0]]) = 5.
+Proof.
+  split; [|reflexivity]. intros t defs H. unfold reg0 in H. cbn [reg_find] in H.
+  destruct (130 =? t); [discriminate|]. destruct (131 =? t); [|discriminate]. inversion H. vm_compute. discriminate.
+Qed.
